@@ -155,7 +155,7 @@ def _sample_bf(rnd, with_val):
     return d
 
 
-@contract("spsdk.utils.registers:RegsBitField.get_value", split=2)
+@contract("spsdk.utils.registers:RegsBitField.get_value", split=4)
 def _(self: Union[BF32, BF_OTHER]) -> int:
     requires(self.offset + self.width <= self.parent.width)
     returns(post(self, field_of(logical(self.parent, False), self.offset, self.width)), label="reads-its-bits")
